@@ -500,6 +500,17 @@ impl StorageEngine {
             return Err(StorageError::KnowledgeGraphNotFound(kg.to_string()));
         }
 
+        // The existence check above ran before the guard was taken; the knowledge graph
+        // may have been dropped completely since then. Re-check under the guard: while it
+        // is held no drop can place its tombstone, so a graph that is present now stays
+        // present until the updates are persisted, and its shards are removed by any later
+        // drop. Without this, updates could be persisted for a graph whose drop had
+        // already finished; the orphan shard resurrected the graph (with these tuples) at
+        // the next start, also inside a re-created graph of the same name.
+        if !self.knowledge_graphs.contains_key(kg) {
+            return Err(StorageError::KnowledgeGraphNotFound(kg.to_string()));
+        }
+
         // Generate shard name and logical time
         let shard = format!("{kg}:{relation}");
         let time = self.logical_time.fetch_add(1, Ordering::SeqCst);
@@ -637,6 +648,17 @@ impl StorageEngine {
         // Hold dropping_kgs read guard across the persist operation (same as insert)
         let dropping_guard = self.dropping_kgs.read();
         if dropping_guard.contains(kg) {
+            return Err(StorageError::KnowledgeGraphNotFound(kg.to_string()));
+        }
+
+        // The existence check above ran before the guard was taken; the knowledge graph
+        // may have been dropped completely since then. Re-check under the guard: while it
+        // is held no drop can place its tombstone, so a graph that is present now stays
+        // present until the updates are persisted, and its shards are removed by any later
+        // drop. Without this, updates could be persisted for a graph whose drop had
+        // already finished; the orphan shard resurrected the graph (with these tuples) at
+        // the next start, also inside a re-created graph of the same name.
+        if !self.knowledge_graphs.contains_key(kg) {
             return Err(StorageError::KnowledgeGraphNotFound(kg.to_string()));
         }
 
